@@ -4,7 +4,7 @@
 From Coq Require Import List NArith ZArith Bool.
 From Coq Require Extraction.
 From Coq Require Import ExtrOcamlBasic.
-From HV Require Import Model.Big Model.Rat Model.NumText Model.Chars Model.Parse.
+From HV Require Import Model.Big Model.Rat Model.NumText Model.Chars Model.Parse Spec.Grammar.
 Extraction "model.ml"
   Big.from_vec Big.bminus Big.bneg Big.badd Big.bsub Big.bmul Big.bdiv Big.brem Big.bgcd Big.beq Big.bcmp
   Big.bnew Big.new_pre_fix Big.is_zero Big.to_int Big.wfb Big.bval
@@ -12,4 +12,5 @@ Extraction "model.ml"
   Rat.neq Rat.ncmp Rat.ncmp_pre_fix Rat.is_nan Rat.is_pos Rat.optimize_pre_fix Rat.wfnb
   NumText.to_string_base NumText.from_string_base NumText.big_display NumText.num_display
   NumText.num_from_string
-  Parse.parse Parse.parse_pre_fix Parse.area_debug Parse.area_display.
+  Parse.parse Parse.parse_pre_fix Parse.area_debug Parse.area_display
+  Grammar.decompose Grammar.valid Grammar.flatten Grammar.abstract.
